@@ -256,10 +256,14 @@ type view struct {
 	inc  int
 	dead *atomic.Bool // the incarnation crashed: no further effect
 	plan *inject.Plan
+	sf   *scanFault // not nil: one read fault aimed at the start-up scan of this incarnation (recover4.go)
 }
 
 func (v *view) Fetch(ctx context.Context, ref blob.Ref) (io.ReadCloser, uint32, error) {
 	v.in.handed(v.l, "Fetch", "name", []byte(ref.String()), true)
+	if v.sf != nil && v.sf.hitFetch(ref) {
+		return v.sf.fetch(ctx, v.l, ref)
+	}
 	return v.l.Fetch(ctx, ref)
 }
 func (v *view) StatBlobs(ctx context.Context, blobs []blob.Ref, fn func(blob.SizedRef) error) error {
@@ -270,6 +274,9 @@ func (v *view) StatBlobs(ctx context.Context, blobs []blob.Ref, fn func(blob.Siz
 }
 func (v *view) EnumerateBlobs(ctx context.Context, dest chan<- blob.SizedRef, after string, limit int) error {
 	v.in.handed(v.l, "EnumerateBlobs", "cursor", []byte(after), true)
+	if v.sf != nil && v.sf.hitEnum() {
+		return v.sf.enumerate(ctx, v.l, dest, after, limit)
+	}
 	return v.l.EnumerateBlobs(ctx, dest, after, limit)
 }
 
@@ -412,6 +419,9 @@ type spyKV struct {
 	faultFired    int
 	faultKey      string
 
+	failSet      int // >0: the failSet-th Set from now fails once with errKVTransient (no effect)
+	setFaultHits int
+
 	gateKey     string        // Set(gateKey) waits until a compaction looked gateKey up
 	gateCh      chan struct{} // closed when that lookup was seen
 	gateSeen    bool
@@ -419,7 +429,7 @@ type spyKV struct {
 	gateExpired int
 }
 
-var errKVTransient = errors.New("verif: injected transient failure of a meta index lookup")
+var errKVTransient = errors.New("verif: injected transient failure of a meta index call")
 
 // gateLimit bounds the delay of a gated Set; its expiry only means the interleaving was not forced.
 const gateLimit = 2 * time.Second
@@ -528,6 +538,13 @@ func (k *spyKV) disarmGate() (forced bool) {
 
 func (k *spyKV) Set(key, value string) error {
 	k.mu.Lock()
+	if k.failSet > 0 {
+		if k.failSet--; k.failSet == 0 {
+			k.setFaultHits++
+			k.mu.Unlock()
+			return errKVTransient
+		}
+	}
 	var ch chan struct{}
 	if key == k.gateKey && k.gateKey != "" {
 		ch = k.gateCh
@@ -658,6 +675,7 @@ type inst struct {
 	keepIndex sorted.KeyValue // not nil: the next incarnation gets this index instead of an empty one
 	watchKV   bool            // every incarnation's index tells compaction lookups from foreground ones
 	armKV     func(kv *spyKV) // prepares the next incarnation's index before the store is created
+	scanFault *scanFault      // not nil: the next incarnation's meta store misbehaves once during its start-up scan
 }
 
 const agree = "that encryption support hasn't been peer-reviewed, isn't finished, and its format might change."
@@ -700,7 +718,8 @@ func (in *inst) create(arm func(p *inject.Plan)) (blobserver.Storage, *inject.Pl
 	}
 	ld := sto.NewLoader()
 	ld.Set("/enc-blobs/", inject.Wrap("blobs", &view{in: in, l: in.blobs, inc: in.inc, dead: dead, plan: plan}, plan))
-	ld.Set("/enc-meta/", inject.Wrap("meta", &view{in: in, l: in.meta, inc: in.inc, dead: dead, plan: plan}, plan))
+	ld.Set("/enc-meta/", inject.Wrap("meta", &view{in: in, l: in.meta, inc: in.inc, dead: dead, plan: plan, sf: in.scanFault}, plan))
+	in.scanFault = nil
 	kv := &spyKV{KeyValue: sorted.NewMemoryKeyValue(), watch: in.watchKV}
 	if in.keepIndex != nil {
 		kv.KeyValue = in.keepIndex
